@@ -219,7 +219,8 @@ func VerifC10_RootEqualsSpec() {
 // the specification addresses by hash, each under its hash with its RLP as the
 // blob; the trie reopened at that root (resolveHash / decodeNode on the stored
 // blobs) returns the content.  Assumption (uninterpreted keccak): distinct
-// node encodings have distinct, non-zero hashes.
+// node encodings have distinct hashes, different from the zero hash and from
+// the empty-trie root KEC(0x80).
 func VerifC10_CommitEqualsSpec() {
 	keys, vals := c10RootContent()
 	var J []c10KV
@@ -229,6 +230,7 @@ func VerifC10_CommitEqualsSpec() {
 	var stored []c10Stored
 	want := c10SpecRoot(J, &stored)
 	zero := make([]byte, 32)
+	vs.Assume(!c10Same(want, emptyRoot[:])) // KEC of a node differs from KEC(RLP("")), the root of the empty trie
 	for i := range stored {
 		vs.Assume(!c10Same(stored[i].hash, zero))
 		for j := 0; j < i; j++ {
